@@ -29,8 +29,12 @@ def seed_specs(rng, n_per_ext, exts=None):
                 w, h = 40, rng.choice([2, 3, 5])
             else:
                 w, h = rng.choice([(80, 2), (80, 3), (16, 4), (40, 3), (7, 5)])
-            style = rng.choice([0, 1, 2]) if ext in BINARY + ['icy', 'ans'] else rng.choice([1, 2])
+            style = rng.choice([0, 1, 2, 3]) if ext in BINARY + ['icy', 'ans'] else rng.choice([1, 2, 3])
             out.append((ext, 'c2mk %s %d %d %d %d %d %d' % (ext, w, h, rng.randrange(1 << 30), k % 2, rng.randrange(2), style)))
+        if ext in BINARY + ['icy', 'ans']:
+            # always: an art-like picture (trailing blanks -> run-length records at the end of the data), compressed and not
+            for comp in (1, 0):
+                out.append((ext, 'c2mk %s %d %d %d %d %d %d' % (ext, 80 if ext in ('adf', 'idf') else (160 if ext == 'bin' else 40), 3, rng.randrange(1 << 30), 0, comp, 3)))
     return out
 
 # ---------------------------------------------------------------------------------- SAUCE tails
